@@ -75,6 +75,11 @@ def run(tier, replay=None):
                     bad.append((i, "class (LA=%d,LB=%d,lambda_max=%d) geometry %s: max |V(A,B) - V(B,A)^T| = %.3e on scale %.3e (restored by: %s)" % (LA, LB, L, gk, dv, sc, cause)))
         # integrator matrices
         sys_cases = api_k.make_cases(rng, "quick", maxl)[: (12 if tier == "quick" else 40)]
+        # half of the systems compute everything twice on the same integrator: the matrices of a recomputation must be symmetric too
+        for i_, c_ in enumerate(sys_cases):
+            if i_ % 2 == 1:
+                c_["extra"] = dict(c_["extra"], repeat=2)
+        res.cov["systems_recomputed_on_the_same_integrator"] = sum(1 for c_ in sys_cases if c_["extra"].get("repeat"))
         mism, m = api_k.run_driver(sys_cases, tmp)   # also re-validates the assembly model
         # symmetry of the dumped matrices is checked from the driver's output file
         asym = []
